@@ -1045,3 +1045,209 @@ impl Monitor for C08 {
         format!("{} {:?} {:?} {:?} {}", self.d.key(), self.prev_q, self.pending.iter().map(|p| p.0).collect::<Vec<_>>(), self.size_known, self.meta_at_fill)
     }
 }
+
+// ------------------------------------------------------------------------------------------
+/// C17: limit faults fire after exactly the configured expirations; the set handler runs.
+#[derive(Default)]
+pub struct C17 {
+    d: Deliv,
+    /// instants (virtual ms) of the transmissions of the PDU whose acknowledgement is awaited
+    eof_tx: Vec<u64>,
+    fin_tx: Vec<u64>,
+    /// distinct instants at which NAK PDUs went out since the receiver last got new file data
+    nak_tx: Vec<u64>,
+    last_rx_s: Option<u64>,
+    last_rx_r: Option<u64>,
+    r_created: Option<u64>,
+    held_prev: u128,
+    /// a fault with handler Abandon / Suspend was declared: nothing may be transmitted after it
+    silenced_s: bool,
+    silenced_r: bool,
+    now: u64,
+    cap: u64,
+    last_eof: Vec<u8>,
+    last_fin: Vec<u8>,
+}
+fn action_for(scn: &Scenario, c: Condition) -> u8 {
+    scn.handlers.iter().find(|(code, _)| *code == c as u8).map(|(_, a)| *a).unwrap_or(0)
+}
+impl Monitor for C17 {
+    fn step(&mut self, rec: &StepRec, ctx: &mut Ctx) {
+        let scn = ctx.scn;
+        let now = rec.obs.now.as_millis() as u64;
+        let n = scn.max_count as u64;
+        self.now = now;
+        self.cap = (n + 1) * [scn.t_inact, scn.t_ack, scn.t_nak].into_iter().max().unwrap() as u64 * 1000;
+        self.d.step(rec);
+        if self.r_created.is_none() && rec.obs.r_life != Life::NotCreated {
+            self.r_created = Some(now);
+        }
+        if let Some((to, p)) = &rec.delivered {
+            match to {
+                Side::S => {
+                    self.last_rx_s = Some(now);
+                    if let Some(Operations::Ack(a)) = op_of(p) {
+                        if a.directive == cfdp_core::pdu::PDUDirective::EoF {
+                            self.eof_tx.clear();
+                        }
+                    }
+                }
+                Side::R => {
+                    self.last_rx_r = Some(now);
+                    if matches!(op_of(p), Some(Operations::Ack(_))) || matches!(op_of(p), Some(Operations::EoF(e)) if e.condition != Condition::NoError) {
+                        // answered — or an EOF (cancel) to which the receiver replies with a
+                        // fresh Finished, which is not a timer retransmission
+                        self.fin_tx.clear();
+                    }
+                    if self.d.held != self.held_prev {
+                        self.held_prev = self.d.held;
+                        self.nak_tx.clear(); // new file data: the NAK count starts again
+                    }
+                }
+            }
+        }
+        // user resume re-arms everything: forget the history
+        if let Ev::User(side, UserOp::Resume) = rec.ev {
+            match side {
+                Side::S => {
+                    self.eof_tx.clear();
+                    self.last_rx_s = Some(now);
+                    self.silenced_s = false;
+                }
+                Side::R => {
+                    self.fin_tx.clear();
+                    self.nak_tx.clear();
+                    self.last_rx_r = Some(now);
+                    self.silenced_r = false;
+                }
+            }
+        }
+        for (side, p) in &rec.out {
+            let silenced = if *side == Side::S { self.silenced_s } else { self.silenced_r };
+            if silenced {
+                ctx.flag("pdu-after-abandon-or-suspend", format!("{:?}|{}", side, pdu_kind(p)), format!("{:?} transmitted {} after a fault whose handler is Abandon/Suspend", side, pdu_brief(p)));
+            }
+            match (side, op_of(p)) {
+                (Side::S, Some(Operations::EoF(_))) => {
+                    let bytes = cfdp_core::pdu::PDUEncode::encode(p.clone());
+                    if bytes != self.last_eof {
+                        self.eof_tx.clear(); // a different EOF (e.g. the cancel one): a first transmission
+                        self.last_eof = bytes;
+                    }
+                    if let Some(last) = self.eof_tx.last() {
+                        ctx.arm("retransmission");
+                        if now - last < scn.t_ack as u64 * 1000 {
+                            ctx.flag("retransmission-early", "S|EOF", format!("EOF retransmitted {} ms after the previous transmission; the ack timeout is {} s", now - last, scn.t_ack));
+                        }
+                    }
+                    self.eof_tx.push(now);
+                }
+                (Side::R, Some(Operations::Finished(_))) => {
+                    let bytes = cfdp_core::pdu::PDUEncode::encode(p.clone());
+                    if bytes != self.last_fin {
+                        self.fin_tx.clear(); // a different Finished (e.g. after a fault): a first transmission
+                        self.last_fin = bytes;
+                    }
+                    if let Some(last) = self.fin_tx.last() {
+                        ctx.arm("retransmission");
+                        if now - last < scn.t_ack as u64 * 1000 {
+                            ctx.flag("retransmission-early", "R|Finished", format!("Finished retransmitted {} ms after the previous transmission; the ack timeout is {} s", now - last, scn.t_ack));
+                        }
+                    }
+                    self.fin_tx.push(now);
+                }
+                (Side::R, Some(Operations::Nak(_))) => {
+                    if self.nak_tx.last() != Some(&now) {
+                        self.nak_tx.push(now);
+                    }
+                }
+                _ => {}
+            }
+        }
+        for (side, i) in &rec.inds {
+            let Indication::Fault(f) = i else { continue };
+            ctx.arm("fault");
+            let c = f.condition;
+            // ---- never earlier than the configured number of expirations
+            let (first, count, t, what): (Option<u64>, Option<usize>, i64, &str) = match (side, c) {
+                (Side::S, Condition::PositiveLimitReached) => (self.eof_tx.first().copied(), Some(self.eof_tx.len()), scn.t_ack, "EOF transmissions"),
+                (Side::R, Condition::PositiveLimitReached) => (self.fin_tx.first().copied(), Some(self.fin_tx.len()), scn.t_ack, "Finished transmissions"),
+                (Side::R, Condition::NakLimitReached) => (self.nak_tx.first().copied(), Some(self.nak_tx.len()), scn.t_nak, "NAK rounds"),
+                (Side::S, Condition::InactivityDetected) | (Side::S, Condition::CheckLimitReached) => (self.last_rx_s.or(self.eof_tx.first().copied()), None, scn.t_inact, ""),
+                (Side::R, Condition::InactivityDetected) => (self.last_rx_r.or(self.r_created), None, scn.t_inact, ""),
+                _ => (None, None, 0, ""),
+            };
+            if let Some(first) = first {
+                let need = n * t as u64 * 1000;
+                if now - first < need {
+                    ctx.flag(
+                        "limit-fault-early",
+                        format!("{:?}|{:?}", side, c),
+                        format!("{:?} declared {:?} {} ms after {}; {} expirations of {} s are required", side, c, now - first, if count.is_some() { "the first unanswered transmission" } else { "the last PDU it received" }, n, t),
+                    );
+                }
+            }
+            if let Some(cnt) = count {
+                if cnt as u64 != n && first.is_some() {
+                    ctx.flag("retransmission-count", format!("{:?}|{:?}|{}", side, c, if (cnt as u64) < n { "fewer" } else { "more" }), format!("{:?} declared {:?} after {} {}; the limit is {}", side, c, cnt, what, n));
+                }
+            }
+            // ---- the configured action is the one taken
+            let act = action_for(scn, c);
+            let life = rec.obs.life(*side);
+            let sub = if *side == Side::S { rec.obs.s_sub } else { rec.obs.r_sub };
+            let abandon_ind = rec.inds.iter().any(|(s2, i2)| s2 == side && matches!(i2, Indication::Abandon(_)));
+            let susp_ind = rec.inds.iter().any(|(s2, i2)| s2 == side && matches!(i2, Indication::Suspended(_)));
+            let ok = match act {
+                // cancel: the cancel handshake starts (the receiver announces it with a Finished
+                // indication carrying the fault condition; its internal sub-state is not observable)
+                0 => {
+                    (life == Life::Active || life == Life::Terminated)
+                        && !abandon_ind
+                        && !susp_ind
+                        && match side {
+                            Side::S => sub == "Cancelled",
+                            Side::R => rec.inds.iter().any(|(s2, i2)| *s2 == Side::R && matches!(i2, Indication::Finished(ff) if ff.report.condition == c)),
+                        }
+                }
+                1 => life == Life::Suspended && susp_ind && sub != "Cancelled",
+                2 => life == Life::Active && sub != "Cancelled" && !abandon_ind && !susp_ind,
+                _ => life == Life::Terminated && abandon_ind,
+            };
+            if !ok {
+                ctx.flag(
+                    "wrong-fault-action",
+                    format!("{:?}|{:?}|configured={}", side, c, ["cancel", "suspend", "ignore", "abandon"][act.min(3) as usize]),
+                    format!("{:?} declared {:?}; the configured action is {} but afterwards life={:?} sub-state={} abandon-indication={} suspended-indication={}", side, c, ["cancel", "suspend", "ignore", "abandon"][act.min(3) as usize], life, sub, abandon_ind, susp_ind),
+                );
+            }
+            if act == 1 || act == 3 {
+                match side {
+                    Side::S => self.silenced_s = true,
+                    Side::R => self.silenced_r = true,
+                }
+            }
+        }
+    }
+    fn key(&self) -> String {
+        // instants relative to the latest one are what matters for the future verdicts
+        // only "has at least N periods passed" is ever asked: saturate, so that scenarios which
+        // go on forever (Ignore handlers) close into a cycle instead of growing
+        let cap = self.cap;
+        let rel = |v: &Vec<u64>, now: u64| v.iter().map(|t| (now - t).min(cap)).collect::<Vec<_>>();
+        let now = self.now;
+        format!(
+            "{} {} {} {:?} {:?} {:?} {:?} {:?} {}{}",
+            self.d.key(),
+            crate::common::hex(&self.last_eof),
+            crate::common::hex(&self.last_fin),
+            rel(&self.eof_tx, now),
+            rel(&self.fin_tx, now),
+            rel(&self.nak_tx, now),
+            self.last_rx_s.map(|t| (now - t).min(cap)),
+            self.last_rx_r.map(|t| (now - t).min(cap)),
+            self.silenced_s,
+            self.silenced_r
+        )
+    }
+}
